@@ -1145,6 +1145,8 @@ class System:
         sim.integrator = integ
         if integ in ("whfast", "leapfrog"):
             sim.dt = opts.get("dt", 0.01)
+        if "dt0" in opts:
+            sim.dt = opts["dt0"]        # initial step of the adaptive integrators (far too large: forces rejected steps)
         if integ == "whfast":
             for k in ("corrector", "corrector2", "safe_mode", "kernel", "keep_unsynchronized"):
                 if k in opts:
@@ -1862,6 +1864,96 @@ def search_whfast_tangent(c, rebound):
     c.cov["megno_whfast_eccentric"] = meg
 
 
+# ============================================================================ search: adaptive integrators with REJECTED steps
+def count_rejected_steps(sy, integ, T, opts):
+    """steps of the base run whose first attempt was rejected.  IAS15 retries inside the step (dt_last_done < dt proposed
+    before the step); BS returns without advancing t."""
+    sim = sy.build(integ, None, opts)
+    nrej = nst = 0
+    while sim.t < T and nst < 200000:
+        dtb, tb = sim.dt, sim.t
+        sim.step()
+        nst += 1
+        if integ == "ias15":
+            if abs(sim.dt_last_done) < abs(dtb) * (1 - 1e-12):
+                nrej += 1
+        elif sim.t == tb:
+            nrej += 1
+    return nrej, nst
+
+
+def search_rejected_steps(c, rebound):
+    """IAS15 and BS restore the state after a rejected step and retry: the variational particles must be restored too.
+    On regular systems with the default dt no step is ever rejected, so rejections are forced: initial dt of 0.05 / 0.5 / 2.5
+    inner periods with an eccentric inner planet started at pericentre, and a mild close encounter.  The number of rejected
+    steps of every base run is recorded; an integrator / order with zero rejections in total is reported as not covered."""
+    THR = 1e-3
+    P1 = 2 * math.pi
+    runs, worst, fails = {}, {}, []
+    total = {}
+    ninc = ntot = 0
+    nsys = 3 if c.thorough else 1
+    for s_ in range(nsys):
+        rng = c.rng.fork()
+        ecc = System(rebound, 1.0, 1.0, [(rng.uniform(5e-4, 2e-3), "orb", [1.0, rng.uniform(0.55, 0.8), rng.uniform(0.02, 0.3), rng.uniform(0, 6.28), rng.uniform(0, 6.28), 0.0]),
+                                         (rng.uniform(2e-4, 1e-3), "orb", [rng.uniform(2.8, 3.5), rng.uniform(0.0, 0.15), rng.uniform(0.02, 0.3), rng.uniform(0, 6.28), rng.uniform(0, 6.28), rng.uniform(0, 6.28)])])
+        # mild close encounter: conjunction at ~3.5 Hill radii around t = 4
+        m_ = 2e-4
+        a2 = 1.0 + 3.5 * (2 * m_ / 3) ** (1 / 3.0) * 1.0
+        n1, n2 = 1.0, a2 ** -1.5
+        enc = System(rebound, 1.0, 1.0, [(m_, "orb", [1.0, 0.01, 0.01, 0.0, 0.0, 0.0]),
+                                         (m_, "orb", [a2, 0.01, 0.02, 0.0, 0.0, 4.0 * (n1 - n2)])])
+        cfgs = [("ecc-pericentre dt0=%.2gP" % f_, ecc, f_ * P1) for f_ in (0.05, 0.5, 2.5)] + [("close-encounter dt0=0.5P", enc, 0.5 * P1)]
+        for integ in ("ias15", "bs"):
+            for tag, sy, dt0 in cfgs:
+                T = 10.0
+                opts = {"dt0": dt0}
+                nrej, nst = count_rejected_steps(sy, integ, T, opts)
+                runs["%d/%s/%s" % (s_, integ, tag)] = {"rejected_steps": nrej, "steps": nst}
+                k1 = [(1, "x"), (1, "a"), (2, "vy"), (1, "e"), (0, "x"), (2, "lambda")]
+                k2 = [[(1, "a"), (1, "e")], [(1, "x"), (2, "vy")], [(2, "a"), (2, "a")]]
+                if not c.thorough:
+                    k1 = [k1[(s_ + i_) % len(k1)] for i_ in (0, 1, 3)]
+                    k2 = k2[:2] if tag.startswith("ecc-pericentre dt0=2.5") else k2[:1]
+                for keys in [[k] for k in k1] + k2:
+                    order = len(keys)
+                    sy2 = sy
+                    for (i, par) in keys:
+                        if par in PAL[2:]:
+                            sy2 = sy2.with_kind(i, "pal")
+                    try:
+                        err, unc, var, fd = shadow_case(sy2, integ, T, keys, True, None, opts)
+                    except Exception as ex:
+                        err, unc, var, fd = float("inf"), 0.0, [], [repr(ex)]
+                    ntot += 1
+                    total[(integ, order)] = total.get((integ, order), 0) + nrej
+                    c.count(("rejected", integ, order, tag, tuple(keys)), nontrivial=nrej > 0)
+                    if unc > THR / 4:
+                        ninc += 1
+                        continue
+                    kk = "%s/o%d" % (integ, order)
+                    worst[kk] = max(worst.get(kk, 0.0), err)
+                    if not err <= THR + 4 * unc:
+                        fails.append(dict(integrator=integ, order=order, keys=keys, config=tag, dt0=dt0, T=T, rejected_steps=nrej, G=1.0, m0=1.0,
+                                          bodies=sy2.bodies, rel_err=err, oracle_uncertainty=unc, variational=var[:12], finite_difference=fd[:12]))
+    c.cov["rejected_step_runs"] = {"runs": runs, "configurations": ntot, "inconclusive": ninc, "threshold": THR,
+                                   "worst_rel": {k: float("%.3g" % v) for k, v in sorted(worst.items())},
+                                   "rejected_steps_total": {"%s/o%d" % k: v for k, v in sorted(total.items())}}
+    for (integ, order), nr in total.items():
+        if nr == 0:
+            c.corr_break("step-rejection path of %s (order %d variations) NOT covered: no base run had a rejected step" % (integ, order))
+    if ninc > 0.2 * ntot:
+        c.corr_break("rejected-step runs: finite-difference oracle inconclusive for %d of %d configurations" % (ninc, ntot))
+    seen = set()
+    for f in sorted(fails, key=lambda r_: -r_["rel_err"] if r_["rel_err"] == r_["rel_err"] else 0):
+        key = "rejected-step:%s:o%d" % (f["integrator"], f["order"])
+        if key in seen:
+            continue
+        seen.add(key)
+        c.violation(key, "%s order-%d variation %s differs from the finite difference of shadow runs by %.3g in a run with %d rejected steps (%s)" %
+                    (f["integrator"], f["order"], f["keys"], f["rel_err"], f["rejected_steps"], f["config"]), f)
+
+
 def run(c):
     if "--replay" in sys.argv:
         # runs are reproducible from (seed, tier): a replay re-runs the check exactly as it ran when the file was written
@@ -1874,6 +1966,13 @@ def run(c):
     fams = regenerate_derivs(c)
     c.prove(["RV.Props.C16"])
     exe = lean_exe("drv_c16")
+    # run a private copy of the driver: a concurrent `lake build` (other checks, a seeded-change run that regenerates
+    # RV/Gen) may relink the binary while this check is still using it
+    import shutil
+    with LeanLock():
+        priv = os.path.join(d, "drv_c16")
+        shutil.copy2(exe, priv)
+    exe = priv
     c.cov["rule"] = ("tie: random particle sets (N 2..24, masses over 8 decades incl. zero, random G and length scale) with two random "
                      "first-order sets (incl. variational masses), one second-order set and first/second-order single test-particle "
                      "variations, also with N_active<N (both testparticle types) and gravity_ignore_terms 1/2; "
@@ -1907,6 +2006,7 @@ def run(c):
     run_phase(c, "derivatives", lambda: search_derivatives(c, rebound), 120 * big)
     run_phase(c, "shadow", lambda: search_shadow(c, rebound), 150 * (10 if c.thorough else 1))
     run_phase(c, "rescale-megno", lambda: search_rescale_megno(c, rebound), 60 * big)
+    run_phase(c, "rejected-steps", lambda: search_rejected_steps(c, rebound), 90 * big)
     run_phase(c, "whfast-tangent", lambda: search_whfast_tangent(c, rebound), 90 * big)
 
 
